@@ -2,5 +2,23 @@ import ColoVerif.Driver.DetPlaceIO
 /-
 Driver for C02: replays the harness' operations on the `DetPlace` model
 (protocol in ColoVerif/Driver/DetPlaceIO.lean).
+
+Same loop as `Driver.run`, with the answers written in blocks of 64 KiB instead of line by line:
+the exhaustive stream of the thorough tier has tens of millions of short lines.
 -/
-def main : IO Unit := Driver.run Driver.DetPlaceIO.stepLine {}
+partial def loopBuf (h out : IO.FS.Stream) (s : Driver.DetPlaceIO.DS) (buf : String) : IO Unit := do
+  let line ← h.getLine
+  if line.isEmpty then
+    out.putStr buf
+    out.flush
+    return ()
+  let (s', outs) := Driver.DetPlaceIO.stepLine s (Driver.words line)
+  let buf := outs.foldl (fun b o => (b ++ o).push '\n') buf
+  if buf.utf8ByteSize ≥ 65536 then
+    out.putStr buf
+    loopBuf h out s' ""
+  else
+    loopBuf h out s' buf
+
+def main : IO Unit := do
+  loopBuf (← IO.getStdin) (← IO.getStdout) {} ""
